@@ -92,6 +92,11 @@ static int manage_srcs(m_mod_t *mod, m_ctx_t *c, int flag, bool stop) {
                     */
                     flush_pubsub_msgs(NULL, NULL, mod);
                 }
+                /*
+                 * Stop polling it right now: the source may outlive this call (when an event
+                 * still references it) and its dtor only deals with running modules.
+                 */
+                poll_set_new_evt(&c->ppriv, t, RM);
                 ret = m_itr_rm(m_itr);
             } else {
                 ret = poll_set_new_evt(&c->ppriv, t, flag);
